@@ -85,8 +85,14 @@ const PADS: &[(usize, usize)] = &[(0, 0), (13, 0), (0, 20), (16, 16), (64, 3), (
 
 pub fn lift_for(j: usize, k: usize) -> Lift {
     let (map, pad) = MAPS[(j + k) % MAPS.len()];
-    if k == 0 {
-        return Lift { s: 1, pl: 0, pr: 0, map, pad };
+    // the first lifts keep the block size 1 and only pad (the pad byte lies outside the needle's byte
+    // set): the same abstract behaviour then runs through the >= 16 and >= 64 byte routes
+    match k {
+        0 => return Lift { s: 1, pl: 0, pr: 0, map, pad },
+        1 => return Lift { s: 1, pl: 16 + j % 3, pr: 0, map, pad },
+        2 => return Lift { s: 1, pl: j % 2, pr: 64 + j % 5, map, pad },
+        3 => return Lift { s: 1, pl: 64, pr: 16, map, pad },
+        _ => {}
     }
     let s = SCALES[(j / 3 + k) % SCALES.len()];
     let (pl, pr) = PADS[(j / 5 + k) % PADS.len()];
@@ -621,6 +627,120 @@ pub fn replay(vs: &[Value], rep: &Report, o: &Opts, threads: usize) {
         let mut cnt = Counts::default();
         for &i in ch {
             replay_one(i, &vs[i], rep, &mut cnt, o);
+            cnt.add("vectors", 1);
+        }
+        rep.merge_counts(&cnt.0);
+    });
+    for v in vs.iter().rev().take(2) {
+        rep.sample(v.clone());
+    }
+}
+
+// ---------------------------------------------------------------------------
+// "obj" vectors (MC_MemmemObjects): operation sequences over a finder, an
+// iterator, its clone, into_owned and the death of the needle buffer.
+
+fn obj_step<'h, 'n>(
+    f: &memmem::Finder<'n>,
+    it: &mut memmem::FindIter<'h, 'n>,
+    cl: &mut Option<memmem::FindIter<'h, 'n>>,
+    op: &str,
+    k: usize,
+    hs: [&'h [u8]; 2],
+) -> i64 {
+    match op {
+        "find" => opt_to_i(f.find(hs[k - 1])),
+        "next" => opt_to_i(it.next()),
+        "clone" => {
+            *cl = Some(it.clone());
+            0
+        }
+        "clone_next" => opt_to_i(cl.as_mut().expect("clone exists").next()),
+        _ => panic!("unexpected op {op}"),
+    }
+}
+
+pub fn replay_obj_one(idx: usize, v: &Value, rep: &Report, cnt: &mut Counts, o: &Opts) {
+    let ns = get_bytes(v, "n");
+    let h1s = get_bytes(v, "h1");
+    let h2s = get_bytes(v, "h2");
+    let ops: Vec<(String, usize, i64)> = v["ops"].as_array().unwrap().iter().map(|e| (get_s(e, "op").to_string(), get_u(e, "k"), get_i(e, "ret"))).collect();
+    let j = idx.wrapping_add(o.seed as usize);
+    for k in 0..o.lifts {
+        let lift = lift_for(j, k);
+        let n = lift.seq(&ns);
+        let h1 = lift.hay(&h1s);
+        let h2 = lift.hay(&h2s);
+        let c = Case { rep, v, lift: &lift, force: &o.force };
+        let hs: [&[u8]; 2] = [&h1, &h2];
+        let r = guard(|| {
+            let mut rets: Vec<i64> = Vec::new();
+            let mut buf = n.clone();
+            let mut i = 0;
+            // stage A: objects borrow `buf`
+            let (f2, it2, cl2) = {
+                let f = memmem::Finder::new(&buf);
+                let mut it = memmem::find_iter(hs[0], &buf);
+                let mut cl = None;
+                while i < ops.len() && ops[i].0 != "into_owned" {
+                    rets.push(obj_step(&f, &mut it, &mut cl, &ops[i].0, ops[i].1, hs));
+                    i += 1;
+                }
+                if i == ops.len() {
+                    return rets;
+                }
+                rets.push(0);
+                i += 1;
+                (f.into_owned(), it.into_owned(), cl.map(|x| x.into_owned()))
+            };
+            // stage B: owned objects; the original buffer may die
+            let (f, mut it, mut cl) = (f2, it2, cl2);
+            let mut buf_alive = Some(std::mem::take(&mut buf));
+            while i < ops.len() {
+                if ops[i].0 == "drop_buffer" {
+                    if let Some(mut b) = buf_alive.take() {
+                        for x in b.iter_mut() {
+                            *x = x.wrapping_add(1);
+                        }
+                        drop(b);
+                    }
+                    rets.push(0);
+                } else {
+                    rets.push(obj_step(&f, &mut it, &mut cl, &ops[i].0, ops[i].1, hs));
+                }
+                i += 1;
+            }
+            if f.needle() != &n[..] {
+                rets.push(-99);
+            }
+            rets
+        });
+        cnt.add("obj_exec", ops.len() as u64);
+        match r {
+            Err(m) => rep.finding(Class::Panic, &format!("object operation sequence panicked: {m}"), c.ctx("objects")),
+            Ok(rets) => {
+                if rets.last() == Some(&-99) {
+                    rep.finding(Class::Result, "needle() of the owned finder differs from the construction needle", c.ctx("objects"));
+                }
+                for (i, (op, _, want)) in ops.iter().enumerate() {
+                    let want = if matches!(op.as_str(), "find" | "next" | "clone_next") { lift.idx(*want) } else { 0 };
+                    if rets.get(i).copied() != Some(want) {
+                        rep.finding(Class::Result, &format!("operation {i} ({op}) returned {:?}, model {want}", rets.get(i)), c.ctx("objects"));
+                        break;
+                    }
+                }
+            }
+        }
+    }
+}
+
+pub fn replay_obj(vs: &[Value], rep: &Report, o: &Opts, threads: usize) {
+    memchr::verif::set_force(&o.force);
+    let idx: Vec<usize> = (0..vs.len()).collect();
+    par_chunks(&idx, threads, |_, ch| {
+        let mut cnt = Counts::default();
+        for &i in ch {
+            replay_obj_one(i, &vs[i], rep, &mut cnt, o);
             cnt.add("vectors", 1);
         }
         rep.merge_counts(&cnt.0);
